@@ -272,57 +272,73 @@ example : ∀ r, toyDeser (toySer r) = some r := by
   intro r; cases r <;> try rfl
   case termAndVote t v => cases v <;> rfl
 
-/-! ### size limit and rotation of the WAL (`max_size_bytes` = 1 GiB, `auto_rotate`, as `with_wal` opens it)
+/-! ### size limit and rotation of the WAL
 
   Every theorem above speaks about `fileOf … dur`, ONE file holding every record the node ever wrote.
-  `RaftWal::append` keeps it that way only while the file stays within `max_size_bytes`
-  (`no_rotation_within_size_limit`); the first append that would exceed it renames the file to
-  `<wal>.1` and starts an empty one, and neither `replay` nor `RaftNode::with_wal` ever reads `<wal>.k`:
-  whatever the history was, a restart then sees exactly the records written since
-  (`rotation_recovers_only_the_new_record`) and the property fails
-  (`rotation_forgets_term_vote_log_witness`).  Nothing in raft.rs truncates or compacts the WAL, so every
-  node whose WAL has grown to 1 GiB is in this situation. -/
+  `RaftWal::append` keeps it that way while the file stays within `max_size_bytes`
+  (`no_rotation_within_size_limit`).  What happens at the limit depends on `auto_rotate`:
+    * `RaftNode::with_wal` opens its WAL with `auto_rotate = false` (and the limit at `u64::MAX`) since
+      fix c45da25c: an append is then either refused — an ordinary failed append, covered by the
+      theorems of the next section — or extends the live file; nothing is ever moved away
+      (`node_wal_is_never_rotated_away`);
+    * with `auto_rotate` (the `WalConfig` default, which `with_wal` used before that fix) the append that
+      crosses the limit renames the file to `<wal>.1` and starts an empty one, and neither `replay` nor
+      `with_wal` ever reads `<wal>.k`: whatever the history was, a restart then sees exactly the records
+      written since (`rotation_recovers_only_the_new_record`) and the property failed
+      (`rotation_forgets_term_vote_log_witness`; nothing in raft.rs truncates or compacts the WAL, so every
+      node whose WAL had grown to 1 GiB was in this situation). -/
 
 /-- **Within the size limit there is no rotation**: appending the records `rs` of any history to a live
     file that holds `d` leaves the single file `fileOf (d ++ rs)` the theorems above are about — as long
     as that file is at most `max_size_bytes` long. -/
-theorem no_rotation_within_size_limit (maxSize maxRot : Nat) (old : List (List Nat)) (d rs : List WalEntry)
-    (h : (fileOf crc ser (d ++ rs)).length ≤ maxSize) :
-    walAppendAll crc maxSize maxRot { cur := fileOf crc ser d, rotated := old } (rs.map ser)
+theorem no_rotation_within_size_limit (c : WalCfg) (old : List (List Nat)) (d rs : List WalEntry)
+    (h : (fileOf crc ser (d ++ rs)).length ≤ c.maxSize) :
+    walAppendAll crc c { cur := fileOf crc ser d, rotated := old } (rs.map ser)
       = { cur := fileOf crc ser (d ++ rs), rotated := old } :=
-  walAppendAll_fits crc ser maxSize maxRot old d rs h
+  walAppendAll_fits crc ser c old d rs h
 
-/-- **The append that crosses the limit makes a restart forget everything before it**: whatever the
-    live file held, afterwards it holds the new record only, recovery returns `from_entries [r]`, and
-    the old content sits in `<wal>.1`, which nothing reads. -/
-theorem rotation_recovers_only_the_new_record (h : GoodSer crc ser deser) (maxSize maxRot : Nat)
-    (w : WalFiles) (r : WalEntry) (hrot : w.cur.length + (encodeRec crc (ser r)).length > maxSize) :
-    let w' := walAppend crc maxSize maxRot w (ser r)
-    w'.cur = fileOf crc ser [r]
+/-- **The node's WAL is never rotated away** (configuration of `RaftNode::with_wal`): whatever is
+    appended, in whatever amount, the live file afterwards is what it held followed by the encoding of the
+    accepted records (a sublist, in order, of the submitted ones — a refused append writes nothing and is
+    reported to the handler as a failure), and no file is renamed. -/
+theorem node_wal_is_never_rotated_away (w : WalFiles) (ps : List (List Nat)) :
+    ∃ acc : List (List Nat), acc.Sublist ps
+      ∧ walAppendAll crc nodeWalCfg w ps = { cur := w.cur ++ encodeAll crc acc, rotated := w.rotated } :=
+  walAppendAll_noRotate crc nodeWalCfg rfl w ps
+
+/-- **With `auto_rotate`, the append that crosses the limit makes a restart forget everything before
+    it**: whatever the live file held, afterwards it holds the new record only, recovery returns
+    `from_entries [r]`, and the old content sits in `<wal>.1`, which nothing reads. -/
+theorem rotation_recovers_only_the_new_record (h : GoodSer crc ser deser) (c : WalCfg) (ha : c.autoRotate = true)
+    (w : WalFiles) (r : WalEntry) (hrot : w.cur.length + (encodeRec crc (ser r)).length > c.maxSize) :
+    ∃ w', walAppend crc c w (ser r) = some w'
+      ∧ w'.cur = fileOf crc ser [r]
       ∧ recoverBytes crc deser w'.cur = .ok (fromEntries [r]) 1 .clean
       ∧ w'.rotated.head? = some w.cur := by
-  rw [walAppend_rotates crc maxSize maxRot w (ser r) hrot]
-  refine ⟨by simp [fileOf, encodeAll], recover_single crc ser deser h r, ?_⟩
-  have : max maxRot 1 = (max maxRot 1 - 1) + 1 := by omega
+  refine ⟨_, walAppend_rotates crc c w (ser r) ha hrot, by simp [fileOf, encodeAll],
+    recover_single crc ser deser h r, ?_⟩
+  have : max c.maxRot 1 = (max c.maxRot 1 - 1) + 1 := by omega
   rw [this, List.take_succ_cons]; rfl
 
-/-- C10 for a node whose WAL rotates: after any crash-free history, what a restart recovers from the
-    live file satisfies the three obligations.  False — `rotation_forgets_term_vote_log_witness`. -/
+/-- C10 for a node whose WAL rotates (`with_wal` BEFORE fix c45da25c; the limit scaled down): after any
+    crash-free history, what a restart recovers from the live file satisfies the three obligations.
+    False — `rotation_forgets_term_vote_log_witness`. -/
 def restart_keeps_obligations_with_rotation : Prop :=
-  ∀ (maxSize maxRot id : Nat) (evs : List Event),
+  ∀ (maxSize id : Nat) (evs : List Event),
     let σ := exec (initSys id) (evs.map Act.ev)
-    let w := walAppendAll wcrc maxSize maxRot {} (σ.dur.map toySer)
+    let w := walAppendAll wcrc { oldNodeWalCfg with maxSize := maxSize } {} (σ.dur.map toySer)
     ∀ s n e, recoverBytes wcrc toyDeser w.cur = .ok s n e → SatB s σ.ghost = true
 
-/-- the history of the harness' directed case `rot.node` (there with the real 1 GiB limit): vote for n2
-    in term 5, entries 1 and 2 acknowledged, then entry 3 — whose record crosses the limit — acknowledged.
-    A restart comes back with term 0, no vote and the log [3]. -/
+/-- the history of the harness' directed regression case `rot.node`: vote for n2 in term 5, entries 1 and
+    2 acknowledged, then entry 3 — whose record crosses the limit — acknowledged.  The restart came back
+    with term 0, no vote and the log [3]. -/
 def rotDemo : List Event :=
   [.requestVote 5 2 0 0, .appendEntries 5 2 0 0 [(5, 11), (5, 12)], .appendEntries 5 2 2 5 [(5, 13)]]
 
 theorem rotation_forgets_term_vote_log_witness : ¬ restart_keeps_obligations_with_rotation := by
   intro hall
-  have hw : walAppendAll wcrc 50 3 {} ((exec (initSys 0) (rotDemo.map Act.ev)).dur.map toySer)
+  have hw : walAppendAll wcrc { oldNodeWalCfg with maxSize := 50 } {}
+        ((exec (initSys 0) (rotDemo.map Act.ev)).dur.map toySer)
       = { cur := encodeRec wcrc (toySer (.logEntryFull 3 5 [3, 5, 13])) ++ [],
           rotated := [encodeAll wcrc [[2, 5], [3, 5, 2], [7, 1, 5, 1, 5, 11], [7, 2, 5, 2, 5, 12]]] } := by
     decide
@@ -330,15 +346,15 @@ theorem rotation_forgets_term_vote_log_witness : ¬ restart_keeps_obligations_wi
     refine ⟨by decide, by decide, by decide⟩
   have hp := parse_cons wcrc (fun p => (toyDeser p).isSome) _ [] hg
   rw [parse_nil] at hp
-  have := hall 50 3 0 rotDemo (fromEntries [.logEntryFull 3 5 [3, 5, 13]]) 1 .clean (by
+  have := hall 50 0 rotDemo (fromEntries [.logEntryFull 3 5 [3, 5, 13]]) 1 .clean (by
     rw [hw]
     simp only [recoverBytes, hp]
     rfl)
   revert this
   decide
 
-/-- what exactly is lost in that history: the node had acted in term 5, voted for n2 and acknowledged
-    entries 1..3; the restart has term 0, no vote, and entry 3 only -/
+/-- what exactly was lost in that history: the node had acted in term 5, voted for n2 and acknowledged
+    entries 1..3; the restart had term 0, no vote, and entry 3 only -/
 example : (exec (initSys 0) (rotDemo.map Act.ev)).ghost.actedTerm = 5
     ∧ (exec (initSys 0) (rotDemo.map Act.ev)).ghost.votes = [(5, 2)]
     ∧ (⟨1, 5, 11⟩ : LogEntry) ∈ (exec (initSys 0) (rotDemo.map Act.ev)).ghost.acked
@@ -346,7 +362,7 @@ example : (exec (initSys 0) (rotDemo.map Act.ev)).ghost.actedTerm = 5
     ∧ (restart 0 (fromEntries [.logEntryFull 3 5 [3, 5, 13]])).term = 0
     ∧ (restart 0 (fromEntries [.logEntryFull 3 5 [3, 5, 13]])).votedFor = none
     ∧ (restart 0 (fromEntries [.logEntryFull 3 5 [3, 5, 13]])).log = [⟨3, 5, 13⟩] := by decide
-/-- … and so it grants n3 the vote of term 5 it had already given to n2 -/
+/-- … and so it granted n3 the vote of term 5 it had already given to n2 -/
 example : (step (restart 0 (fromEntries [.logEntryFull 3 5 [3, 5, 13]])) (.requestVote 5 3 9 9)).reply
     = .vote 5 true := by decide
 /-- the hypothesis of `no_rotation_within_size_limit` is satisfiable with a non-trivial history, and the
@@ -354,122 +370,128 @@ example : (step (restart 0 (fromEntries [.logEntryFull 3 5 [3, 5, 13]])) (.reque
 example : (fileOf wcrc toySer ((exec (initSys 0) ((rotDemo.take 2).map Act.ev)).dur)).length = 49 := by decide
 example : (fileOf wcrc toySer ((exec (initSys 0) ((rotDemo.take 2).map Act.ev)).dur)).length
     + (encodeRec wcrc (toySer (.logEntryFull 3 5 [3, 5, 13]))).length > 50 := by decide
+/-- with the node's configuration scaled down the same way (limit 50, no rotation) the crossing append is
+    refused and the live file keeps the first four records -/
+example : walAppendAll wcrc { nodeWalCfg with maxSize := 50 } {}
+      ((exec (initSys 0) (rotDemo.map Act.ev)).dur.map toySer)
+    = { cur := encodeAll wcrc [[2, 5], [3, 5, 2], [7, 1, 5, 1, 5, 11], [7, 2, 5, 2, 5, 12]], rotated := [] } := by
+  decide
 
-/-! ### histories in which the WAL rejects appends for a while (disk-space check, I/O error)
+/-! ### histories in which the WAL rejects appends for a while (disk-space check, I/O error, size limit)
 
   `ActF`: besides `ev e` / `crash e k` as above, `evFail e` runs handler `e` while EVERY `RaftWal::append`
   returns `Err` without writing (what `check_space` does when less than `min_free_space_bytes` is left),
-  and `crashFail e k` kills the process `k` micro steps into such a handler.  `execF false` is the code
-  as it is, `execF true` the code with /verif/proposed/C10-append-entries-persist-first.diff.
+  and `crashFail e k` kills the process `k` micro steps into such a handler.  `execF true` is the code
+  as it is; `execF false` is the code before fix 54033160, where `append_leader_entries` pushed a new
+  entry into memory BEFORE `persist_log_entry`, left it there when the append failed, and ignored a
+  failed `LogTruncate`: the leader's retry then found the entry "already held", wrote nothing and
+  acknowledged it — an acknowledged entry that no restart would ever see
+  (`acked_entry_lost_before_fix_witness`).  The term/vote theorems hold for both (their invariant does
+  not need memory and WAL to agree on the log). -/
 
-  * Term and vote: "persist, then change memory, then answer" is followed on every failure branch, so
-    both obligations hold in every such history (`term_and_vote_survive_wal_failures`,
-    `byte_crash_with_wal_failures`, `no_double_vote_with_wal_failures`).  The invariant behind these does
-    not assume that memory and WAL agree on the log.
-  * Log: `append_leader_entries` pushes a new entry into memory BEFORE `persist_log_entry` and leaves it
-    there when the append fails (and ignores a failed `LogTruncate`).  The leader's retry then finds the
-    entry "already held", writes nothing, and acknowledges it: an acknowledged entry that no restart will
-    ever see (`acked_entry_lost_after_wal_failure_witness`).  Outside the crash-only quantifier of C10
-    (hence reported as an observation by the harness), inside its statement.
-  * With the entry persisted first the full invariant is kept
-    (`repaired_append_keeps_all_obligations_under_wal_failures`). -/
-
-/-- **Term and vote survive any mix of WAL failures and crashes** (code as it is).  After any history —
-    handlers with a working WAL, handlers whose appends all fail, crashes at any micro step of either
-    kind — a restart has a term at least the highest the node acted in, holds every vote it announced
-    (or is past that term), and the running node's term and vote equal what a restart would recover. -/
-theorem term_and_vote_survive_wal_failures (id : Nat) (acts : List ActF) :
-    let σ := execF false (initSys id) acts
-    let r := restart id (fromEntries σ.dur)
-    σ.ghost.actedTerm ≤ r.term
-      ∧ (∀ v ∈ σ.ghost.votes, v.1 < r.term ∨ (v.1 = r.term ∧ r.votedFor = some v.2))
-      ∧ σ.node.term = r.term ∧ σ.node.votedFor = r.votedFor := by
-  have h := tvinv_execF false (initSys id) acts (tvinv_init id)
-  exact ⟨h.2.1, h.2.2, h.1.1, h.1.2⟩
-
-/-- the file cut at byte `n` while handler `e` (WAL working again) runs after a history with failures -/
-def crashFileF (id : Nat) (acts : List ActF) (e : Event) (n : Nat) : List Nat :=
-  let σ := execF false (initSys id) acts
-  (fileOf crc ser (σ.dur ++ recs (step σ.node e).micros)).take n
-
-/-- **Byte-granular crash after a history with WAL failures**: the cut file recovers without error to
-    the record-level crash state, is repaired to its exact encoding, and the restarted node satisfies the
-    term and vote obligations in force at that micro step. -/
-theorem byte_crash_with_wal_failures (h : GoodSer crc ser deser) (id : Nat) (acts : List ActF) (e : Event)
-    (n : Nat) (hn : (fileOf crc ser (execF false (initSys id) acts).dur).length ≤ n) :
-    ∃ s cnt en, recoverBytes crc deser (crashFileF crc ser id acts e n) = .ok s cnt en ∧
-      ∀ k, (execF false (initSys id) acts).dur.length
-            + (recs ((step (execF false (initSys id) acts).node e).micros.take k)).length = cnt →
-        let σ' := execActF false (execF false (initSys id) acts) (.crash e k)
-        s = fromEntries σ'.dur ∧ openRepair (crashFileF crc ser id acts e n) = fileOf crc ser σ'.dur
-          ∧ σ'.ghost.actedTerm ≤ (restart id s).term
-          ∧ (∀ v ∈ σ'.ghost.votes, v.1 < (restart id s).term
-                ∨ (v.1 = (restart id s).term ∧ (restart id s).votedFor = some v.2)) := by
-  obtain ⟨j, _, ⟨en, hrec⟩, hrep⟩ := byte_cut crc ser deser h (execF false (initSys id) acts).dur
-    (recs (step (execF false (initSys id) acts).node e).micros) n hn
-  refine ⟨_, _, en, hrec, ?_⟩
-  intro k hk
-  have hj : (recs ((step (execF false (initSys id) acts).node e).micros.take k)).length = j := by omega
-  have hd : (execActF false (execF false (initSys id) acts) (.crash e k)).dur
-      = (execF false (initSys id) acts).dur ++ (recs (step (execF false (initSys id) acts).node e).micros).take j := by
-    simp only [execActF, stepM, Bool.false_eq_true, if_false]
-    rw [recs_take, hj]
-  have hinv := tvinv_execActF false _ (.crash e k) (tvinv_execF false (initSys id) acts (tvinv_init id))
-  refine ⟨by rw [hd], by rw [hd]; exact hrep, ?_, ?_⟩
-  · have := hinv.2.1; rw [hd] at this; exact this
-  · have := hinv.2.2; rw [hd] at this; exact this
-
-/-- **No double vote, WAL failures included.** -/
-theorem no_double_vote_with_wal_failures (id : Nat) (acts : List ActF)
-    (t c1 c2 : Nat) (h1 : (t, c1) ∈ (execF false (initSys id) acts).ghost.votes)
-    (h2 : (t, c2) ∈ (execF false (initSys id) acts).ghost.votes) : c1 = c2 := by
-  have hf := votesFn_execF false (initSys id) acts (tvinv_init id) (by intro v hv; simp [initSys] at hv)
-  exact hf (t, c1) h1 (t, c2) h2 rfl
-
-/-- the log obligation in histories with WAL failures, code as it is.  False —
-    `acked_entry_lost_after_wal_failure_witness`. -/
-def acked_entries_survive_wal_failures : Prop :=
-  ∀ (id : Nat) (acts : List ActF),
-    let σ := execF false (initSys id) acts
-    ∀ a ∈ σ.ghost.acked, a ∈ (restart id (fromEntries σ.dur)).log
-
-/-- entry 1 acknowledged; AppendEntries(entry 2) while the WAL rejects appends: answered `success = false`,
-    but entry 2 stays in memory; the leader repeats the request with the WAL working again: entry 2 is
-    "already held", nothing is written, `success = true, match_index = 2`.  A restart has entry 1 only. -/
-def failDemo : List ActF :=
-  [.ev (.appendEntries 1 2 0 0 [(1, 11)]),
-   .evFail (.appendEntries 1 2 1 1 [(1, 12)]),
-   .ev (.appendEntries 1 2 1 1 [(1, 12)])]
-
-theorem acked_entry_lost_after_wal_failure_witness : ¬ acked_entries_survive_wal_failures := by
-  intro hall
-  have := hall 0 failDemo ⟨2, 1, 12⟩ (by decide)
-  revert this
-  decide
-
-/-- **The repair is sufficient.** With `append_leader_entries` persisting before it changes memory, every
-    history with WAL failures and crashes keeps all three obligations, and memory equals what a restart
-    recovers. -/
-theorem repaired_append_keeps_all_obligations_under_wal_failures (id : Nat) (acts : List ActF) :
+/-- **All three obligations survive any mix of WAL failures and crashes.**  After any history — handlers
+    with a working WAL, handlers whose appends all fail, crashes at any micro step of either kind — a
+    restart has a term at least the highest the node acted in, holds every vote it announced (or is past
+    that term), has every acknowledged entry, and memory equals what a restart recovers. -/
+theorem all_obligations_survive_wal_failures (id : Nat) (acts : List ActF) :
     let σ := execF true (initSys id) acts
     let r := restart id (fromEntries σ.dur)
     σ.ghost.actedTerm ≤ r.term
       ∧ (∀ v ∈ σ.ghost.votes, v.1 < r.term ∨ (v.1 = r.term ∧ r.votedFor = some v.2))
       ∧ (∀ a ∈ σ.ghost.acked, a ∈ r.log)
-      ∧ σ.node.log = r.log := by
+      ∧ σ.node.term = r.term ∧ σ.node.votedFor = r.votedFor ∧ σ.node.log = r.log := by
   obtain ⟨hS, hwf, hsat⟩ := inv_execF_fixed (initSys id) acts (inv_init id)
   have hlog : (restart id (fromEntries (execF true (initSys id) acts).dur)).log = (execF true (initSys id) acts).node.log := by
     simp only [restart, recoveredLog, hS.2.2]
     exact filterMap_dec _
-  refine ⟨hsat.1, hsat.2.1, ?_, hlog.symm⟩
+  refine ⟨hsat.1, hsat.2.1, ?_, hS.1, hS.2.1, hlog.symm⟩
   intro a ha
   rw [hlog]
   have hmem := hsat.2.2 a ha
   rw [hS.2.2] at hmem
   exact mem_map_entKV.mp hmem
 
-/-- the three steps of `failDemo` on the code as it is … -/
-example : (stepFail (execF false (initSys 0) (failDemo.take 1)).node (.appendEntries 1 2 1 1 [(1, 12)])).reply
+/-- the file cut at byte `n` while handler `e` (WAL working again) runs after a history with failures -/
+def crashFileF (id : Nat) (acts : List ActF) (e : Event) (n : Nat) : List Nat :=
+  let σ := execF true (initSys id) acts
+  (fileOf crc ser (σ.dur ++ recs (step σ.node e).micros)).take n
+
+/-- **Byte-granular crash after a history with WAL failures**: the cut file recovers without error to
+    the record-level crash state, is repaired to its exact encoding, and the restarted node satisfies the
+    three obligations in force at that micro step. -/
+theorem byte_crash_with_wal_failures (h : GoodSer crc ser deser) (id : Nat) (acts : List ActF) (e : Event)
+    (n : Nat) (hn : (fileOf crc ser (execF true (initSys id) acts).dur).length ≤ n) :
+    ∃ s cnt en, recoverBytes crc deser (crashFileF crc ser id acts e n) = .ok s cnt en ∧
+      ∀ k, (execF true (initSys id) acts).dur.length
+            + (recs ((step (execF true (initSys id) acts).node e).micros.take k)).length = cnt →
+        let σ' := execActF true (execF true (initSys id) acts) (.crash e k)
+        s = fromEntries σ'.dur ∧ openRepair (crashFileF crc ser id acts e n) = fileOf crc ser σ'.dur
+          ∧ σ'.ghost.actedTerm ≤ (restart id s).term
+          ∧ (∀ v ∈ σ'.ghost.votes, v.1 < (restart id s).term
+                ∨ (v.1 = (restart id s).term ∧ (restart id s).votedFor = some v.2))
+          ∧ (∀ a ∈ σ'.ghost.acked, a ∈ (restart id s).log) := by
+  obtain ⟨j, _, ⟨en, hrec⟩, hrep⟩ := byte_cut crc ser deser h (execF true (initSys id) acts).dur
+    (recs (step (execF true (initSys id) acts).node e).micros) n hn
+  refine ⟨_, _, en, hrec, ?_⟩
+  intro k hk
+  have hj : (recs ((step (execF true (initSys id) acts).node e).micros.take k)).length = j := by omega
+  have hd : (execActF true (execF true (initSys id) acts) (.crash e k)).dur
+      = (execF true (initSys id) acts).dur ++ (recs (step (execF true (initSys id) acts).node e).micros).take j := by
+    simp only [execActF, stepM, Bool.false_eq_true, if_false]
+    rw [recs_take, hj]
+  have hinv := inv_execActF_fixed _ (.crash e k) (inv_execF_fixed (initSys id) acts (inv_init id))
+  obtain ⟨hS, hwf, hsat⟩ := hinv
+  rw [hd] at hS hsat
+  refine ⟨by rw [hd], by rw [hd]; exact hrep, hsat.1, hsat.2.1, ?_⟩
+  intro a ha
+  have hmem := hsat.2.2 a ha
+  have hshape : Shape (fromEntries ((execF true (initSys id) acts).dur
+      ++ (recs (step (execF true (initSys id) acts).node e).micros).take j)) := ⟨_, hwf, hS.2.2⟩
+  have hsync := (restart_sync id _ hshape).1.2.2
+  rw [hsync] at hmem
+  exact mem_map_entKV.mp hmem
+
+/-- **No double vote, WAL failures included.** -/
+theorem no_double_vote_with_wal_failures (id : Nat) (acts : List ActF)
+    (t c1 c2 : Nat) (h1 : (t, c1) ∈ (execF true (initSys id) acts).ghost.votes)
+    (h2 : (t, c2) ∈ (execF true (initSys id) acts).ghost.votes) : c1 = c2 := by
+  have hf := votesFn_execF true (initSys id) acts (tvinv_init id) (by intro v hv; simp [initSys] at hv)
+  exact hf (t, c1) h1 (t, c2) h2 rfl
+
+/-- **Term and vote do not depend on memory and WAL agreeing on the log**: for the code as it is
+    (`fixed = true`) and as it was before fix 54033160 (`false`) alike. -/
+theorem term_and_vote_survive_wal_failures (fixed : Bool) (id : Nat) (acts : List ActF) :
+    let σ := execF fixed (initSys id) acts
+    let r := restart id (fromEntries σ.dur)
+    σ.ghost.actedTerm ≤ r.term
+      ∧ (∀ v ∈ σ.ghost.votes, v.1 < r.term ∨ (v.1 = r.term ∧ r.votedFor = some v.2))
+      ∧ σ.node.term = r.term ∧ σ.node.votedFor = r.votedFor := by
+  have h := tvinv_execF fixed (initSys id) acts (tvinv_init id)
+  exact ⟨h.2.1, h.2.2, h.1.1, h.1.2⟩
+
+/-- the log obligation in histories with WAL failures for the code BEFORE fix 54033160.  False —
+    `acked_entry_lost_before_fix_witness`. -/
+def acked_entries_survive_wal_failures_before_fix : Prop :=
+  ∀ (id : Nat) (acts : List ActF),
+    let σ := execF false (initSys id) acts
+    ∀ a ∈ σ.ghost.acked, a ∈ (restart id (fromEntries σ.dur)).log
+
+/-- entry 1 acknowledged; AppendEntries(entry 2) while the WAL rejects appends: answered `success = false`;
+    the leader repeats the request with the WAL working again.  (Directed regression case of the harness.) -/
+def failDemo : List ActF :=
+  [.ev (.appendEntries 1 2 0 0 [(1, 11)]),
+   .evFail (.appendEntries 1 2 1 1 [(1, 12)]),
+   .ev (.appendEntries 1 2 1 1 [(1, 12)])]
+
+theorem acked_entry_lost_before_fix_witness : ¬ acked_entries_survive_wal_failures_before_fix := by
+  intro hall
+  have := hall 0 failDemo ⟨2, 1, 12⟩ (by decide)
+  revert this
+  decide
+
+/-- the three steps of `failDemo` before the fix: entry 2 stayed in memory, the retry found it "already
+    held", wrote nothing and answered `success = true, match_index = 2`; a restart had entry 1 only … -/
+example : (stepFailOld (execF false (initSys 0) (failDemo.take 1)).node (.appendEntries 1 2 1 1 [(1, 12)])).reply
       = .append 1 false 2
     ∧ (execF false (initSys 0) (failDemo.take 2)).node.log = [⟨1, 1, 11⟩, ⟨2, 1, 12⟩]
     ∧ (execF false (initSys 0) (failDemo.take 2)).dur = (execF false (initSys 0) (failDemo.take 1)).dur
@@ -477,22 +499,62 @@ example : (stepFail (execF false (initSys 0) (failDemo.take 1)).node (.appendEnt
       = .append 1 true 2
     ∧ recs (step (execF false (initSys 0) (failDemo.take 2)).node (.appendEntries 1 2 1 1 [(1, 12)])).micros = []
     ∧ (restart 0 (fromEntries (execF false (initSys 0) failDemo).dur)).log = [⟨1, 1, 11⟩] := by decide
-/-- … and with the repair: the failing call leaves memory alone, the retry writes the record -/
+/-- … and as the code is: the failing call leaves memory alone, the retry writes the record -/
 example : (execF true (initSys 0) (failDemo.take 2)).node.log = [⟨1, 1, 11⟩]
     ∧ (restart 0 (fromEntries (execF true (initSys 0) failDemo).dur)).log = [⟨1, 1, 11⟩, ⟨2, 1, 12⟩] := by decide
 /-- a history with every kind of act: failing election, failing vote request of a higher term (answered
-    with the old term), a granted vote, a conflict overwritten in memory only while the WAL fails, crashes
-    of both kinds -/
+    with the old term), a granted vote, a conflicting entry refused while the WAL fails, crashes of both
+    kinds, a pre-vote quorum that cannot start its election, one that can, votes making the node leader -/
 def failActs : List ActF :=
   [.evFail .startElection, .evFail (.requestVote 3 2 0 0), .ev (.requestVote 3 2 0 0),
    .ev (.appendEntries 3 2 0 0 [(3, 11), (3, 12)]), .ev (.appendEntries 4 1 0 0 []),
    .evFail (.appendEntries 4 1 1 3 [(4, 22)]), .crashFail (.appendEntries 4 1 1 3 [(4, 22)]) 1,
-   .evFail (.propose 5), .crash (.requestVote 9 4 9 9) 1]
-example : (execF false (initSys 0) (failActs.take 2)).node.term = 0
+   .evFail (.propose 5), .crash (.requestVote 9 4 9 9) 1,
+   .ev .startPreVote, .evFail (.preVoteResponse 1 9 true), .evFail (.preVoteResponse 2 9 true),
+   .ev .startPreVote, .ev (.preVoteResponse 1 9 true), .ev (.preVoteResponse 2 9 true),
+   .ev (.voteResponse 1 10 true), .evFail (.voteResponse 2 10 true), .ev (.propose 77)]
+example : (execF true (initSys 0) (failActs.take 2)).node.term = 0
     ∧ (stepFail (initSys 0).node (.requestVote 3 2 0 0)).reply = .vote 0 false
-    ∧ (execF false (initSys 0) (failActs.take 3)).ghost.votes = [(3, 2)]
+    ∧ (execF true (initSys 0) (failActs.take 3)).ghost.votes = [(3, 2)]
+    ∧ (execF true (initSys 0) (failActs.take 6)).node.log = [⟨1, 3, 11⟩, ⟨2, 3, 12⟩]
     ∧ (execF false (initSys 0) (failActs.take 6)).node.log = [⟨1, 3, 11⟩, ⟨2, 4, 22⟩]
-    ∧ (execF false (initSys 0) (failActs.take 7)).node.log = [⟨1, 3, 11⟩, ⟨2, 3, 12⟩]
-    ∧ (execF false (initSys 0) failActs).node.term = 9 := by decide
+    ∧ (execF true (initSys 0) (failActs.take 9)).node.term = 9
+    ∧ (execF true (initSys 0) (failActs.take 12)).node.term = 9
+    ∧ (execF true (initSys 0) (failActs.take 12)).node.inPreVote = false
+    ∧ (execF true (initSys 0) (failActs.take 15)).node.term = 10
+    ∧ (execF true (initSys 0) (failActs.take 15)).node.role = .candidate
+    ∧ (execF true (initSys 0) (failActs.take 17)).node.role = .leader
+    ∧ (execF true (initSys 0) failActs).ghost.votes = [(10, 0), (3, 2)]
+    ∧ (⟨3, 10, 77⟩ : LogEntry) ∈ (execF true (initSys 0) failActs).ghost.acked := by decide
+
+/-! ### elections started by messages
+
+  `start_election` is also reached from `handle_pre_vote_response` (a quorum of pre-votes) and from
+  `handle_timeout_now` (leadership transfer), and `become_leader` from `handle_request_vote_response` (a
+  quorum of votes).  These are events of `step`, so every theorem above covers them; the examples show the
+  paths are taken. -/
+
+def electDemo : List Act :=
+  [.ev .startPreVote, .ev (.preVoteResponse 1 0 true), .ev (.preVoteResponse 1 0 true),
+   .ev (.preVoteResponse 2 0 true),
+   .ev (.voteResponse 1 1 true), .ev (.voteResponse 2 1 true), .ev (.propose 7),
+   .ev (.appendEntries 2 3 0 0 []), .crash (.timeoutNow 3 2 3) 1, .ev (.timeoutNow 3 2 3),
+   .ev (.appendEntries 2 3 0 0 []), .ev (.timeoutNow 4 2 3)]
+/-- two distinct pre-votes plus its own make the quorum of 3 (a repeated one is not counted): the election
+    writes TV(1, self) before anything is announced -/
+example : (exec (initSys 0) (electDemo.take 3)).node.term = 0
+    ∧ recs (step (exec (initSys 0) (electDemo.take 3)).node (.preVoteResponse 2 0 true)).micros
+        = [.termAndVote 1 (some 0)]
+    ∧ (exec (initSys 0) (electDemo.take 4)).node.role = .candidate
+    ∧ (exec (initSys 0) (electDemo.take 6)).node.role = .leader
+    ∧ (exec (initSys 0) (electDemo.take 7)).node.log = [⟨1, 1, 7⟩] := by decide
+/-- TimeoutNow from the believed leader: a crash after the record but before the announcement restarts the
+    node in term 3 with its own vote; a TimeoutNow of a stale term (the node is now in term 3) is ignored;
+    after a new heartbeat from leader 3 in term 3 … the last one names leader 3 and is honoured -/
+example : (exec (initSys 0) (electDemo.take 9)).node.term = 3
+    ∧ (exec (initSys 0) (electDemo.take 9)).node.votedFor = some 0
+    ∧ (exec (initSys 0) (electDemo.take 9)).ghost.votes = [(1, 0)]
+    ∧ (exec (initSys 0) (electDemo.take 10)).node.term = 3
+    ∧ (exec (initSys 0) electDemo).node.term = 3 := by decide
 
 end Neumann.RaftWal.Props
